@@ -427,7 +427,7 @@ func runPrec(s *space, n int, idx int64, rot int) precResult {
 	f, _, err := parseSrc(res.text)
 	if err != nil {
 		res.got = "parse error: " + firstLine(err.Error())
-		res.fails = append(res.fails, fail{"prec/parse-error/" + opName(t),
+		res.fails = append(res.fails, fail{"prec/parse-error/" + opName(minimalUnparseable(t)),
 			fmt.Sprintf("%q (tree %s) does not parse: %s", res.text, res.expect, firstLine(err.Error()))})
 		return res
 	}
@@ -440,7 +440,7 @@ func runPrec(s *space, n int, idx int64, rot int) precResult {
 	g := fromAST(e)
 	res.got = sexp(g)
 	if res.got != res.expect {
-		a, b, _ := firstDiff(t, g, "")
+		a, b := regrouped(t, g)
 		res.fails = append(res.fails, fail{groupingSig(a, b),
 			fmt.Sprintf("%q groups as %s, documented precedence gives %s", res.text, res.got, res.expect)})
 	}
@@ -466,4 +466,105 @@ func runPrec(s *space, n int, idx int64, rot int) precResult {
 		res.fails = append(res.fails, fail{"print/" + kind, what})
 	}
 	return res
+}
+
+// minimalUnparseable descends to a smallest subtree whose own minimal text
+// does not parse.
+func minimalUnparseable(t *node) *node {
+	for _, k := range t.kids {
+		if _, _, err := parseSrc("out := " + pr(k)); err != nil {
+			return minimalUnparseable(k)
+		}
+	}
+	return t
+}
+
+// ---- naming the two operators of a mis-grouping ------------------------------
+//
+// Both trees are built from the same token sequence, so every operator
+// occurrence can be identified by its position in text order. A mis-grouping
+// shows as a pair of occurrences X, Y with X above Y in the expected tree but
+// not in the parsed tree; preferred: Y above X in the parsed tree (inversion),
+// then the pair closest together in the expected tree.
+
+func textOrder(n *node, ids map[*node]int, names *[]string) {
+	mark := func() {
+		ids[n] = len(*names)
+		*names = append(*names, opName(n))
+	}
+	switch n.k {
+	case kLeaf, kOther:
+	case kUn:
+		mark()
+		textOrder(n.kids[0], ids, names)
+	case kSel:
+		textOrder(n.kids[0], ids, names)
+		mark()
+	default: // binary, cond, call, index: operator token follows the first child
+		textOrder(n.kids[0], ids, names)
+		mark()
+		for _, k := range n.kids[1:] {
+			textOrder(k, ids, names)
+		}
+	}
+}
+
+// above[x][y] = depth distance if occurrence x is a proper ancestor of y.
+func aboveMatrix(n *node, ids map[*node]int, size int) [][]int {
+	m := make([][]int, size)
+	for i := range m {
+		m[i] = make([]int, size)
+	}
+	var walk func(n *node, anc []int)
+	walk = func(n *node, anc []int) {
+		if n.k == kLeaf || n.k == kOther {
+			return
+		}
+		id := ids[n]
+		for d, a := range anc {
+			m[a][id] = len(anc) - d
+		}
+		anc = append(anc, id)
+		for _, k := range n.kids {
+			walk(k, anc)
+		}
+	}
+	walk(n, nil)
+	return m
+}
+
+func regrouped(exp, got *node) (string, string) {
+	ie, ig := map[*node]int{}, map[*node]int{}
+	var ne, ng []string
+	textOrder(exp, ie, &ne)
+	textOrder(got, ig, &ng)
+	same := len(ne) == len(ng)
+	for i := 0; same && i < len(ne); i++ {
+		same = ne[i] == ng[i]
+	}
+	if !same {
+		a, b, _ := firstDiff(exp, got, "")
+		return a, b
+	}
+	me, mg := aboveMatrix(exp, ie, len(ne)), aboveMatrix(got, ig, len(ne))
+	bx, by, best := -1, -1, 1<<30
+	for x := range ne {
+		for y := range ne {
+			if me[x][y] == 0 || mg[x][y] != 0 {
+				continue
+			}
+			score := me[x][y] * 2
+			if mg[y][x] == 0 {
+				score++ // not an inversion: less specific
+			}
+			if score < best {
+				bx, by, best = x, y, score
+			}
+		}
+	}
+	if bx < 0 {
+		a, b, _ := firstDiff(exp, got, "")
+		return a, b
+	}
+	return ne[bx], ne[by]
 }
